@@ -385,7 +385,9 @@ let register (reg : string -> (Sx.t list -> Sx.t) -> unit) : unit =
         L [wr_nat a; wr_nat b; wr_nat c]
       | _ -> raise (Bad "auth_request_shape arity"));
   (* ---- the composition: bypass decision + stored credential (cookie store) + handlers ---- *)
-  reg "serve_request" (function
+  reg "serve_request" (fun args0 ->
+      let args0, vd = (match List.rev args0 with x :: rest when List.length args0 = 28 -> (List.rev rest, rd_list rd_str x) | _ -> (args0, [])) in
+      match args0 with
       | [macs; ccfg; cookies; now0; now1; dtab; skip_preflight; routes; mt; pt; nets; ipt; use_header; rq;
          ep; skipb; fjson; bearer_on; basic_on; domains; groups; bearer; basic; ajax; api; vg; ve] ->
         let rd_as = rd_opt (function
@@ -428,7 +430,7 @@ let register (reg : string -> (Sx.t list -> Sx.t) -> unit) : unit =
         let run now =
           let r = { Compose.r_b = rd_breq rq; r_cookies = rd_cookies cookies; r_now = rd_z now;
                     r_bearer = rd_as bearer; r_basic = rd_as basic;
-                    r_p = { Proxy.q_ajax = rd_bool ajax; q_api = rd_bool api; q_groups = rd_list rd_str vg; q_domains = []; q_emails = rd_list rd_str ve; q_clear_fails = false } } in
+                    r_p = { Proxy.q_ajax = rd_bool ajax; q_api = rd_bool api; q_groups = rd_list rd_str vg; q_domains = vd; q_emails = rd_list rd_str ve; q_clear_fails = false } } in
           let (o, _) = Compose.serve_request (table_fun (rd_table macs)) matches parse parse_ip decode e d r in
           (match o with
            | Proxy.PUpstream _ -> "upstream" | Proxy.PAccepted _ -> "accepted"
@@ -496,7 +498,10 @@ let register (reg : string -> (Sx.t list -> Sx.t) -> unit) : unit =
         L [wr_list wr_entry (LegacyHeaders.legacy_request_headers l); wr_list wr_entry (LegacyHeaders.legacy_response_headers l)]
       | _ -> raise (Bad "legacy_headers arity"));
   (* ---- Proxy ---- *)
-  reg "proxy_serve" (function
+  reg "proxy_serve" (fun args0 ->
+      (* an optional trailing argument: the allowed_email_domains query constraint *)
+      let args0, vd = (match List.rev args0 with x :: rest when List.length args0 = 15 -> (List.rev rest, rd_list rd_str x) | _ -> (args0, [])) in
+      match args0 with
       | [ep; skipb; fjson; bypass; domains; groups; bearer; basic; stored; ajax; api; vg; ve; clearfails] ->
         let rd_as = rd_opt (function
             | L [em; gs] -> { Authz.a_email = rd_str em; a_groups = rd_list rd_str gs }
@@ -504,7 +509,7 @@ let register (reg : string -> (Sx.t list -> Sx.t) -> unit) : unit =
         let e = (match rd_sym ep with "proxy" -> Proxy.EpProxy | "authonly" -> Proxy.EpAuthOnly | _ -> Proxy.EpUserInfo) in
         let cfg = { Proxy.p_skip_provider_button = rd_bool skipb; p_force_json = rd_bool fjson } in
         let c = { Proxy.cr_bearer = rd_as bearer; cr_basic = rd_as basic; cr_stored = rd_as stored } in
-        let rq = { Proxy.q_ajax = rd_bool ajax; q_api = rd_bool api; q_groups = rd_list rd_str vg; q_domains = []; q_emails = rd_list rd_str ve; q_clear_fails = rd_bool clearfails } in
+        let rq = { Proxy.q_ajax = rd_bool ajax; q_api = rd_bool api; q_groups = rd_list rd_str vg; q_domains = vd; q_emails = rd_list rd_str ve; q_clear_fails = rd_bool clearfails } in
         let validator em = Authz.email_valid (rd_list rd_str domains) [] em in
         let (o, cleared) = Proxy.serve e cfg true true (rd_bool bypass) validator (rd_list rd_str groups) c rq in
         let cls = (match o with
